@@ -89,6 +89,12 @@ CLAIMED = {
          'Trusted: Lean kernel, Mathlib, harness goal generators and scipy-logm error twist; pinv and random restarts are oracles.',
          'Lean 4 loop-invariant proofs with oracle updates + postcondition-transfer correspondence + on-arm falsifier',
          'DESIGN.md section 5 C07'),
+ 'C06': ('Partial proof: machine-checked theorems (Lean 4) for the algebraic clauses - column i of the space Jacobian model is Ad(prod_{k<i} exp([S_k]theta_k)) S_i for chains of any length, torque.rate = wrench.twist for every Jacobian, '
+         'linearity of the transpose map in the wrench (link-mass term), with exp6 conjugation / chain base change from C05. The derivative clause J = d(FK)/d(theta), the body = Ad(inv T) space relation, the link / tool-aligned / numerical variants and the pseudo-inverse round trip '
+         'are decided on the real Arm by Richardson-extrapolated central differences and NumPy references (labelled sampled); model Jacobians are compared with the Arm\'s on its stored screws.',
+         'Trusted: Lean kernel, Mathlib, harness finite differences (steps >= 1e-4) and frame references; no theorem about differentiation is claimed.',
+         'Lean 4 proofs of the algebraic clauses + differential correspondence + finite-difference falsifier on the real Arm',
+         'DESIGN.md section 5 C06'),
 }
 NA_REASON = 'check not built yet in this round (work in progress; DESIGN.md section 8 gives the build order)'
 
